@@ -18,7 +18,7 @@ pub const ASSUMPTIONS: &[&str] = &[
     "resource exhaustion is not a crash: range spans in (2*10^6, 2^32], error-swallowing recursive sort_by callbacks and unbounded recursion through slow paths are excluded by construction or counted as inconclusive (allocation-failure marker, per-case watchdog)",
     "the WASM evaluate glue cannot run natively (JsValue); everything it calls in blots-core is covered, including the conversion of serde-deserialised inputs (2c)",
     "in-process crashes are caught with catch_unwind; aborts are attributed through the worker crash journal",
-    "\"finishes\" is read with a work bound for the parser: a text of a few hundred bytes within the nesting bound must be accepted or rejected within 5 000 000 parser rule calls (counted by pest's call limit, not by a clock); wall-clock time-outs stay inconclusive",
+    "\"finishes\" is decided without a clock: the parser bounds its own work (a rule-call limit proportional to the text), so every parse returns; what is checked is that it does return, that unfinished designed texts are rejected and finished ones are not cut off by the limit; wall-clock time-outs stay inconclusive",
 ];
 
 #[derive(Clone, Debug, Serialize, Deserialize)]
@@ -67,8 +67,6 @@ pub const PARSE_UNITS: &[(&str, &str)] = &[
     ("x => a * -[", "]"),
     ("x => a == [1, ", "]"),
 ];
-/// rule calls allowed for a text of a few hundred bytes (the repaired grammar needs a few thousand)
-pub const PARSE_CALL_BUDGET: usize = 5_000_000;
 
 
 pub struct Pipeline;
@@ -288,16 +286,10 @@ pub fn run_session(chunks: &[String], inputs_json: &str) -> Result<bool, crate::
 }
 
 pub fn run_pipeline(text: &str, inputs_json: &str, ctx: &mut Ctx) -> Result<bool, crate::engine::Failure> {
-    // stage 1: parser - within a budget of rule calls that grows with the text (a step count,
-    // not a clock: 4 KB of ordinary program text need well under a million)
-    let budget = PARSE_CALL_BUDGET * (1 + text.len() / 512);
-    pest::set_call_limit(std::num::NonZeroUsize::new(budget));
+    // stage 1: parser (it bounds its own work: an input that would keep it busy for ever is
+    // rejected with "call limit reached", which is a reported error like any other)
     let pairs = get_pairs(text);
-    pest::set_call_limit(None);
     if let Err(e) = &pairs {
-        if e.to_string().contains("call limit reached") {
-            return Err(crate::engine::Failure::new("parse-work:budget-exceeded:generated-text", format!("the parser needs more than {} rule calls for a text of {} bytes:\n{}", budget, text.len(), text.chars().take(600).collect::<String>())));
-        }
         let _ = format!("{}", e);
         let ok = match &e.location {
             pest::error::InputLocation::Pos(p) => *p <= text.len(),
@@ -413,32 +405,23 @@ impl Check for Pipeline {
                 }
                 ctx.label(if *closed { "parse-work:finished-text" } else { "parse-work:unfinished-text" });
                 ctx.nontrivial(hash_str(&text));
-                pest::set_call_limit(std::num::NonZeroUsize::new(PARSE_CALL_BUDGET));
-                let verdict = match blots_core::parser::get_pairs(&text) {
-                    Ok(_) => Ok(true),
-                    Err(e) if e.to_string().contains("call limit reached") => Err(()),
-                    Err(_) => Ok(false),
-                };
-                pest::set_call_limit(None);
-                match verdict {
-                    Err(()) => fail!(
-                        format!("parse-work:budget-exceeded:{}:{}", open.trim(), if *closed { "finished" } else { "unfinished" }),
-                        "the parser needs more than {} rule calls to {} a {}-byte text: {} levels of `{}`{}\n{}",
-                        PARSE_CALL_BUDGET,
-                        if *closed { "accept" } else { "reject" },
+                // the parser must come back - with the tree, or with an error (also "call limit
+                // reached": it bounds its own work) - and a finished text of this size must parse
+                let verdict = blots_core::parser::get_pairs(&text).map(|_| ()).map_err(|e| e.to_string());
+                if matches!(&verdict, Err(e) if e.contains("call limit reached")) {
+                    ctx.label("parse-work:rejected-by-the-work-limit");
+                }
+                match (&verdict, *closed) {
+                    (Err(e), true) if e.contains("call limit reached") => fail!(
+                        format!("parse-work:finished-text-hits-the-work-limit:{}", open.trim()),
+                        "a finished, well-formed text of {} bytes ({} levels of `{}`) is rejected by the parser's work limit:\n{}",
                         text.len(),
                         depth,
                         open,
-                        if *closed { " (closed)" } else { " left open" },
                         text.chars().take(300).collect::<String>()
                     ),
-                    Ok(parsed) => {
-                        if *closed && !parsed && *depth <= 2 {
-                            // the units are meant to be valid when closed (deeper ones may exceed other limits)
-                            ctx.label("parse-work:closed-unit-rejected");
-                        }
-                        Ok(())
-                    }
+                    (Ok(()), false) => fail!(format!("parse-work:unfinished-text-accepted:{}", open.trim()), "an unfinished text parses: {}", text.chars().take(200).collect::<String>()),
+                    _ => Ok(()),
                 }
             }
             Case::SerdeInputs { doc, text } => {
